@@ -138,7 +138,7 @@ theorem C02_lifecycle (lim : Limiter) (sr tr : List ReadEv) (sw tw : List WriteE
 loses nothing before the failure (a test of the model, not the theorem). -/
 example :
     (copy (some 4) [⟨[1, 2, 3], none, false, 0⟩, ⟨[], some .timeout, false, 0⟩, ⟨[4, 5, 6, 7, 8], none, false, 0⟩]
-      [⟨3, false⟩, ⟨2, false⟩] {}).1.delivered = [1, 2, 3, 4, 5] := by decide
+      [⟨3, false, false⟩, ⟨2, false, false⟩] {}).1.delivered = [1, 2, 3, 4, 5] := by decide
 
 /-- A finished two-direction run exists (the hypothesis of `C02_lifecycle` is satisfiable). -/
 example :
